@@ -111,7 +111,7 @@ func cmdCheck(eng *Engine, args []string, tier string, keep, verbose bool, start
 	outRoot := eng.verif
 	if eng.repo != "/repo" {
 		// runs against a scratch copy (self-tests, seeded changes) must not overwrite the real evidence
-		outRoot = filepath.Join(eng.verif, "tmp", "scratch-run")
+		outRoot = filepath.Join(eng.verif, "tmp", envOr("VERIF_SCRATCH_OUT", "scratch-run"))
 	}
 	replayDir := filepath.Join(outRoot, "replays", prop)
 	os.RemoveAll(replayDir)
